@@ -253,6 +253,8 @@ def released_fields(u, fr, T, seen=None):
             a2 = strip_casts(a)
             if a2 is None:
                 continue
+            if a2["k"] == "ref" and a2.get("decl") == "local":
+                a2 = fr.resolve(a2) or a2          # `T *buckets = obj->table; ... p_free (buckets);`
             if a2["k"] == "member" and root_var(a2) == p0:
                 top = a2
                 while strip_casts(top["base"])["k"] == "member":
